@@ -66,7 +66,8 @@ type Shard struct {
 	ShardN      int            `json:"shard"`
 	Shards      int            `json:"shards"`
 	Evaluations int64          `json:"evaluations"`
-	Nontrivial  int64          `json:"nontrivial"` // distinct within this process
+	Nontrivial  int64          `json:"nontrivial"` // distinct within this process (hashed + counted)
+	Counted     int64          `json:"counted"`    // the part of Nontrivial that was counted without hashing
 	HashFile    string         `json:"hash_file,omitempty"`
 	Disjoint    bool           `json:"disjoint"` // this shard's non-trivial cases are disjoint from other shards by construction
 	Classes     map[string]int64 `json:"classes"`
@@ -84,6 +85,7 @@ type Rec struct {
 	mu       sync.Mutex
 	sh       Shard
 	hashes   map[uint64]struct{}
+	counted  int64 // non-trivial cases counted without hashing (enumerations that are distinct by construction)
 	out      string
 	frozen   bool // set while rapid shrinks, so shrink re-runs are not counted
 	firstN   int
@@ -138,7 +140,8 @@ func (r *Rec) flush() {
 	}
 	r.mu.Lock()
 	defer r.mu.Unlock()
-	r.sh.Nontrivial = int64(len(r.hashes))
+	r.sh.Nontrivial = int64(len(r.hashes)) + r.counted
+	r.sh.Counted = r.counted
 	if !r.sh.Disjoint && len(r.hashes) > 0 {
 		hf := r.out + ".hashes"
 		buf := make([]byte, 0, 8*len(r.hashes))
@@ -201,6 +204,14 @@ func (r *Rec) Nontrivial(h uint64) {
 		return
 	}
 	r.hashes[h] = struct{}{}
+}
+
+// NontrivialN counts n non-trivial cases that are distinct by construction (enumerations), without storing hashes.
+func (r *Rec) NontrivialN(n int) {
+	if r.frozen {
+		return
+	}
+	r.counted += int64(n)
 }
 
 // Class adds one to a histogram bucket.
